@@ -16,6 +16,7 @@ class Prop:
     rule = ''
     needs_harness = True
     harness_kind = 'asan'
+    also_release = False     # run the property oracle a second time on a build without -DDEBUG (assertions compiled out, -O2)
 
     # ---- to override -------------------------------------------------------------
     def corr_lines(self, tier, rng):
@@ -168,6 +169,24 @@ def run_check(prop, tier, replay=None):
             broken.append({'kind': 'oracle', 'what': 'property oracle crashed', 'detail': traceback.format_exc()[-1500:]})
     elif not sb['ok']:
         broken.append({'kind': 'oracle', 'what': 'specdrv does not build', 'detail': first_error(sb['out'])})
+    # 5b. the same oracle on the release configuration of the library (no -DDEBUG: CBOR_ASSERT compiled out, -O2): behaviour that
+    # depends on an assertion's side effect, or on the optimisation level, shows here
+    if prop.also_release and replay is None and ctx.harness and sb['ok'] and not fails:
+        try:
+            hb2 = core.build_harness('asanrel')
+            report['steps']['harness_build_release'] = {'ok': hb2['ok'], 'cached': hb2.get('cached'), 'tail': hb2['out'][-800:]}
+            if hb2['ok']:
+                dbg = ctx.harness; ev0 = ctx.evaluations
+                ctx.harness = hb2['exe']
+                try:
+                    fails += [dict(f, why='[release build, no -DDEBUG] ' + f.get('why', '')) for f in prop.oracle(tier, ctx)]
+                finally:
+                    ctx.harness = dbg
+                ctx.stats['release_build_evaluations'] = ctx.evaluations - ev0
+            else:
+                broken.append({'kind': 'harness', 'what': 'release-configuration harness does not build', 'detail': hb2['out'][-800:]})
+        except Exception as ex:
+            broken.append({'kind': 'oracle', 'what': 'property oracle crashed on the release build', 'detail': traceback.format_exc()[-1500:]})
 
     # 6. decide
     lines_out = []
